@@ -1,7 +1,7 @@
 P('C14', shards=16,
-  passes=[{'race': True, 'env': {'VERIF_SCALE': '0.2'}, 'tiers': ['thorough']}, {'race': False, 'tiers': ['thorough']}, {'race': True, 'tiers': ['quick']}],
+  passes=[{'race': True, 'env': {'VERIF_SCALE': '0.2'}, 'tiers': ['thorough']}, {'race': False, 'tiers': ['thorough']}, {'race': True, 'tiers': ['quick']}, {'race': False, 'env': {'GODEBUG': 'panicnil=1', 'VERIF_SCALE': '0.5'}, 'run': '^TestScenarios$'}],
   technique='property-based testing of panic-heavy scenario programs with concurrent Status() pollers inside a testing/synctest bubble, under the race detector; oracle: start counters, LastPanic membership, PendingTask bounds and exactness at rest',
   text='Generated programs release panicking tasks with values of seven dynamic types together on several workers (one gate), poll Status() from concurrent goroutines and build stable states; every accepted task must still start exactly once, '
        'LastPanic at quiescence must be one of the raised values (nil iff none), every snapshot must satisfy 0 <= PendingTask <= laneSize x (queueSize+1), PendingTask must equal accepted - started at rest, and the race detector must stay silent on lane code. TestStableStates builds the stable states directly (all workers pinned, k tasks queued) for lane sizes 1..65. Exploration, not proof.',
-  note='Data races are detected only on executed paths; the Go scheduler orders runnable goroutines inside the bubble.',
+  note='Panic values include nil and context errors; an extra pass runs under GODEBUG=panicnil=1. Data races are detected only on executed paths; the Go scheduler orders runnable goroutines inside the bubble.',
   design='3/C14')
